@@ -84,6 +84,46 @@ static void extract_case(uint64_t m, int avx, uint64_t nrows, uint64_t sl_extra,
     }
     cnt("blocks_checked", 1);
   }
+  // copies are copies of BITS: sources with signed zeros, NaN payloads and subnormals, destinations holding beforehand +0.0, -0.0, a
+  // byte pattern or the value itself; compared word for word (a store skipped because the destination "already equals" the value
+  // keeps a zero of the other sign)
+  if (nrows >= 1) {
+    static const uint64_t SPECIAL[] = {0x0000000000000000ull, 0x8000000000000000ull, 0x3FF8000000000000ull, 0xC004000000000000ull, 0x0000000000000001ull, 0x8000000000000001ull,
+                                       0x7FF8000000000123ull, 0xFFF8000000000456ull, 0x7FF0000000000000ull, 0x0010000000000000ull};
+    uint64_t* srcw = (uint64_t*)src;
+    for (uint64_t i = 0; i < src_n; i++) srcw[i] = (rng_u64(r) & 1) ? SPECIAL[rng_u64(r) % 2] : SPECIAL[rng_u64(r) % ARRAY_LEN(SPECIAL)];
+    for (unsigned bi = 0; bi < nblk && bi < 6; bi++) {
+      const uint64_t blk = blks[bi];
+      for (int bg = 0; bg < 4; bg++) {
+        static const uint64_t BG[4] = {0x0000000000000000ull, 0x8000000000000000ull, 0x5B5B5B5B5B5B5B5Bull, 0x7FF4DEADBEEF0001ull};
+        uint64_t* dw = (uint64_t*)dst;
+        uint64_t* ow = (uint64_t*)one;
+        uint64_t* vw = (uint64_t*)vec;
+        for (uint64_t i = 0; i < nrows * 8; i++) dw[i] = BG[bg];
+        for (int i = 0; i < 8; i++) ow[i] = BG[bg];
+        for (uint64_t i = 0; i < 2 * m; i++) vw[i] = BG[bg];
+        if (slmode)
+          (avx ? reim4_extract_1blk_from_contiguous_reim_sl_avx : reim4_extract_1blk_from_contiguous_reim_sl_ref)(m, sl, nrows, blk, dst, src);
+        else
+          (avx ? reim4_extract_1blk_from_contiguous_reim_avx : reim4_extract_1blk_from_contiguous_reim_ref)(m, nrows, blk, dst, src);
+        int bad = 0;
+        for (uint64_t row = 0; row < nrows && !bad; row++)
+          for (int i = 0; i < 8; i++)
+            if (dw[row * 8 + (uint64_t)i] != srcw[row * sl + (i >= 4 ? m : 0) + 4 * blk + (uint64_t)(i & 3)]) bad = 1;
+        if (bad) viol("oracle", "extract (%s, %s): m=%" PRIu64 " blk %" PRIu64 ": the extracted block is not a bit-for-bit copy (signed zeros / NaN payloads in the source, destination pre-filled with %016" PRIx64 ")", avx ? "avx" : "ref", slmode ? "strided" : "contiguous", m, blk, BG[bg]);
+        (avx ? reim4_extract_1blk_from_reim_avx : reim4_extract_1blk_from_reim_ref)(m, blk, one, src);
+        (avx ? reim4_save_1blk_to_reim_avx : reim4_save_1blk_to_reim_ref)(m, blk, vec, one);
+        bad = 0;
+        for (uint64_t i = 0; i < 2 * m; i++) {
+          const uint64_t j = i % m;
+          const uint64_t want = (j >= 4 * blk && j < 4 * blk + 4) ? srcw[i] : BG[bg];
+          if (vw[i] != want) bad = 1;
+        }
+        if (bad) viol("oracle", "reim4_extract_1blk_from_reim / reim4_save_1blk_to_reim (%s): m=%" PRIu64 " blk %" PRIu64 ": save(extract(x)) is not a bit-for-bit copy of the block into a vector pre-filled with %016" PRIx64, avx ? "avx" : "ref", m, blk, BG[bg]);
+        cnt("bitwise_block_copies_checked", 2);
+      }
+    }
+  }
   long wh;
   if (gb_check(&gs, &wh) || gb_check(&gd, &wh) || gb_check(&gv, &wh) || gb_check(&g1, &wh)) viol("canary", "extract/save accessed outside a buffer (%ld)", wh);
   gb_free(&gs);
@@ -551,4 +591,15 @@ void run_C17(void) {
   for (uint64_t sa = 0; sa <= (th ? 9u : 6u); sa++)
     for (uint64_t sb = 0; sb <= (th ? 9u : 6u); sb++)
       for (int fam = 0; fam < (th ? N_VFAM : 2); fam++) conv_case(sa, sb, fam, 0);
+  // the entry points of this property called a second time on the SAME buffers holding other data (new values, two limbs exchanged,
+  // one word moved between limbs): must equal a fresh call on that data (results or operands remembered by address)
+  {
+    static const char* const RNAMES[] = {"reim_fftvec_mul", "reim_fftvec_addmul", "cplx_fftvec_mul", "cplx_fftvec_addmul", "reim4_fftvec_mul", "reim4_fftvec_addmul", "reim4_from_cplx", "reim4_to_cplx", "reim4_extract_1blk_from_contiguous_reim_ref", "reim4_extract_1blk_from_contiguous_reim_avx", "reim4_extract_1blk_from_reim_ref", "reim4_extract_1blk_from_reim_avx", "reim4_save_1blk_to_reim_ref", "reim4_save_1blk_to_reim_avx", "reim4_vec_mat1col_product_ref", "reim4_vec_mat1col_product_avx2", "reim4_vec_mat2cols_product_ref", "reim4_vec_mat2cols_product_avx2", "reim4_convolution_ref"};
+    static const uint64_t RN[] = {2, 16, 64, 1024};
+    for (size_t i = 0; i < ARRAY_LEN(RN); i++)
+      for (int cfg = DISP_NATIVE; cfg >= DISP_GENERIC; cfg--) {
+        if (cfg == DISP_GENERIC && (i & 1)) continue;
+        ops_recontent_case("C17 entry points", RNAMES, (int)ARRAY_LEN(RNAMES), RN[i], cfg, G.thorough ? 40 : 6, (unsigned)i, "same_buffers_other_data_calls");
+      }
+  }
 }
